@@ -44,6 +44,19 @@ func cacheDir() string {
 }
 
 var keys = []string{"k0", "k1", "k2", "k3", "k4"}
+
+// bulkKeys: a family of keys moved only by whole-range hand-overs (Import / RemoveKeys with
+// hundreds of keys: the sizes at which batching inside the store shows its seams)
+var bulkKeys = func() []string {
+	out := make([]string, 450)
+	for i := range out {
+		out[i] = fmt.Sprintf("b%03d", i)
+	}
+	return out
+}()
+
+// allKeys is the universe the recovered store is read back over
+var allKeys = append(append([]string{}, keys...), bulkKeys...)
 var kids = []string{"c0", "c1", "c2"}
 
 const leaseTTL = 30 * time.Minute // nothing expires within a run
@@ -74,9 +87,15 @@ func (o op) short() string {
 	case "append", "remove":
 		return fmt.Sprintf("%s %s/%s", o.Op, o.Key, o.Val)
 	case "import":
+		if len(o.Keys) > 8 {
+			return fmt.Sprintf("import of %d keys %s..%s", len(o.Keys), o.Keys[0], o.Keys[len(o.Keys)-1])
+		}
 		b, _ := json.Marshal(o.Vals)
 		return fmt.Sprintf("import %v %s", o.Keys, b)
 	case "removekeys":
+		if len(o.Keys) > 8 {
+			return fmt.Sprintf("removekeys of %d keys %s..%s", len(o.Keys), o.Keys[0], o.Keys[len(o.Keys)-1])
+		}
 		return fmt.Sprintf("removekeys %v", o.Keys)
 	case "release":
 		if o.Stale {
@@ -153,8 +172,8 @@ func (m model) apply(o op, tok uint64) string {
 }
 
 func (m model) canon() []string {
-	out := make([]string, len(keys))
-	for i, k := range keys {
+	out := make([]string, len(allKeys))
+	for i, k := range allKeys {
 		e := m[k]
 		if e == nil {
 			e = &entry{}
@@ -192,9 +211,41 @@ func matches(want, got []string) bool {
 	return true
 }
 
-func genHistory(rng *rand.Rand, n int) []op {
+// bulkOp builds a hand-over sized operation over the first cnt bulk keys starting at from.
+func bulkOp(kind string, from, cnt, gen int) op {
+	o := op{Op: kind}
+	for i := 0; i < cnt; i++ {
+		k := bulkKeys[(from+i)%len(bulkKeys)]
+		o.Keys = append(o.Keys, k)
+		if kind == "import" {
+			v := xfer{Simple: fmt.Sprintf("g%d-%s", gen, k)}
+			if i%50 == 0 {
+				v.Children = []string{kids[i%len(kids)]}
+			}
+			o.Vals = append(o.Vals, v)
+		}
+	}
+	return o
+}
+
+var bulkSizes = []int{199, 200, 201, 250, 399, 400, 401, 450}
+
+func genHistory(rng *rand.Rand, n int, bulk bool) []op {
 	m := model{}
 	var h []op
+	if bulk {
+		// early in the history, so that every transaction of these operations is among the kill points
+		for _, o := range []op{
+			bulkOp("import", 0, bulkSizes[rng.Intn(len(bulkSizes))], 0),
+			bulkOp("removekeys", rng.Intn(50), bulkSizes[rng.Intn(len(bulkSizes))], 0),
+			bulkOp("import", rng.Intn(100), bulkSizes[rng.Intn(len(bulkSizes))], 1),
+			bulkOp("removekeys", 0, len(bulkKeys), 0),
+			bulkOp("import", 0, 201+rng.Intn(249), 2),
+		} {
+			m.apply(o, unknownToken)
+			h = append(h, o)
+		}
+	}
 	rk := func() string { return keys[rng.Intn(len(keys))] }
 	rc := func() string { return kids[rng.Intn(len(kids))] }
 	// prefer operations that have an effect: a key that holds a value / a child that exists
@@ -468,13 +519,13 @@ func verifyOne(dir string) (out verifyOut) {
 		out.Ranged = append(out.Ranged, string(k))
 	}
 	sort.Strings(out.Ranged)
-	ex, err := kv.Export(ctx, bs(keys))
-	if err != nil || len(ex) != len(keys) {
+	ex, err := kv.Export(ctx, bs(allKeys))
+	if err != nil || len(ex) != len(allKeys) {
 		bad("Export: %v", err)
 		return
 	}
 	known := map[string]bool{}
-	for i, k := range keys {
+	for i, k := range allKeys {
 		known[k] = true
 		v, err := kv.Get(ctx, []byte(k))
 		if err != nil {
@@ -624,7 +675,7 @@ func main() {
 	child.Register("c23verify", verifyChild)
 	child.Main()
 	r := ev.Start("C23", "fault_enumeration")
-	r.SetRule("seeded histories (put, delete, prefix append with conflicts, prefix remove, import with overlapping keys and lease tokens, RemoveKeys, lease acquire/release incl. stale tokens; no empty values) applied by a child to sqlite3.SqliteKV; the child SIGKILLs itself at the k-th hit of sqlite.tx.begun / sqlite.tx.precommit for EVERY k of the history, and the parent SIGKILLs it at seeded positions of the ISSUE/ACK stream; a different process reopens. A case is distinct by (kill kind, operation in flight, whether the recovered state includes it)")
+	r.SetRule("seeded histories (put, delete, prefix append with conflicts, prefix remove, import with overlapping keys and lease tokens, RemoveKeys, in every second history hand-over sized Import/RemoveKeys of 199..450 keys, lease acquire/release incl. stale tokens; no empty values) applied by a child to sqlite3.SqliteKV; the child SIGKILLs itself at the k-th hit of sqlite.tx.begun / sqlite.tx.precommit for EVERY k of the history, and the parent SIGKILLs it at seeded positions of the ISSUE/ACK stream; a different process reopens. A case is distinct by (kill kind, operation in flight, whether the recovered state includes it)")
 	r.Assume("process kill only (SIGKILL): the page cache survives; power loss with synchronous=NORMAL is not modelled")
 	r.Assume("one sequential client; lease TTLs are 30 min so nothing expires during a run; no empty values are written (backends differ on listing them)")
 	r.SetMaxSamples(6)
@@ -640,7 +691,7 @@ func main() {
 	_ = os.MkdirAll(base, 0o755)
 	var cases []*killCase
 	for hi := 0; hi < nh; hi++ {
-		hist := genHistory(rng, nops)
+		hist := genHistory(rng, nops, hi%2 == 1)
 		for _, pt := range []string{"sqlite.tx.begun", "sqlite.tx.precommit"} {
 			for k := 1; k <= len(hist); k++ {
 				cases = append(cases, &killCase{name: fmt.Sprintf("h%d/%s/%d", hi, strings.TrimPrefix(pt, "sqlite.tx."), k), hi: hi, hist: hist, point: pt, k: k})
@@ -847,7 +898,7 @@ func main() {
 				}
 				mm.apply(c.hist[i], tok)
 			}
-			r.Violation(key, c.name, fmt.Sprintf("killed (%s) with %s in flight, %d acknowledged: recovered data %v are not the model after %d..%d operations", kind, inflight, acked, v.State, acked, issued), wit)
+			r.Violation(key, c.name, fmt.Sprintf("killed (%s) with %s in flight, %d acknowledged: recovered data %v are not the model after %d..%d operations", kind, inflight, acked, compact(v.State), acked, issued), wit)
 			continue
 		}
 		if len(v.Problems) > 0 {
@@ -855,7 +906,7 @@ func main() {
 			r.Violation("listing-inconsistent:"+kind, c.name, fmt.Sprintf("killed (%s) with %s in flight: key listings disagree with the stored data: %s", kind, inflight, strings.Join(v.Problems, "; ")), wit)
 			continue
 		}
-		r.Sample(map[string]any{"case": c.name, "kill": kind, "in_flight": inflight, "acked": acked, "issued": issued, "recovered_includes_in_flight": which == 1, "recovered": v.State})
+		r.Sample(map[string]any{"case": c.name, "kill": kind, "in_flight": inflight, "acked": acked, "issued": issued, "recovered_includes_in_flight": which == 1, "recovered": compact(v.State)})
 	}
 	r.Extra("cases_by_signature", sigCount)
 	r.Count("cases", int64(len(cases)))
@@ -864,4 +915,25 @@ func main() {
 	}
 	_ = os.RemoveAll(base)
 	r.Finish()
+}
+
+// compact renders a recovered state for messages: the five ordinary keys in full, the bulk
+// family as a count of keys that hold something plus the first and last of them.
+func compact(state []string) []string {
+	var out []string
+	n, first, last := 0, "", ""
+	for _, l := range state {
+		if !strings.HasPrefix(l, "b") {
+			out = append(out, l)
+			continue
+		}
+		if !strings.HasSuffix(l, "=||none") {
+			if n == 0 {
+				first = l
+			}
+			last = l
+			n++
+		}
+	}
+	return append(out, fmt.Sprintf("bulk family: %d of %d keys present (first %q last %q)", n, len(bulkKeys), first, last))
 }
